@@ -3,6 +3,7 @@ package symx
 import (
 	"fmt"
 	"io"
+	"os"
 	"sort"
 	"strings"
 	"time"
@@ -22,6 +23,8 @@ type Config struct {
 	Transcript    io.Writer         // optional SMT-LIB transcript of everything sent to the solver
 	ExtraStubs    map[string]stubFn // harness-specific stubs (take precedence)
 }
+
+var debugPaths = os.Getenv("VERIF_DEBUG_PATHS") != ""
 
 func DefaultConfig() Config {
 	return Config{MaxSteps: 2_000_000, MaxDepth: 4096, MaxPaths: 2_000_000, MaxConcrete: 64, SolverBinary: "cvc5"}
@@ -120,7 +123,9 @@ type Engine struct {
 	pathDecided    int
 	pathAsserted   bool
 	actor          int
-	foot           map[int]map[int]uint8 // actor -> cell id -> R(1)|W(2)
+	foot           map[int]map[int]uint8         // actor -> cell id -> R(1)|W(2) for accesses made while holding no lock
+	lockFoot       map[int]map[int]*lockedAccess // actor -> cell id -> accesses made while holding a lock
+	held           map[int]int                   // locks (mutex cell id -> depth) held by the code running now
 	stdout, stderr []Value
 	bufs           map[*Cell]Value // bytes.Buffer / strings.Builder contents
 	pools          map[*Cell][]Value
@@ -372,8 +377,38 @@ func (e *Engine) touch(c *Cell, write bool) {
 	}
 }
 
+// lockedAccess summarises an actor's accesses to one cell made under locks: whether any was a
+// write, and the locks held at every one of them.
+type lockedAccess struct {
+	write bool
+	locks map[int]bool
+}
+
 func (e *Engine) touchID(id int, write bool) {
 	if e.actor == 0 {
+		return
+	}
+	if len(e.held) > 0 {
+		m := e.lockFoot[e.actor]
+		if m == nil {
+			m = map[int]*lockedAccess{}
+			e.lockFoot[e.actor] = m
+		}
+		la := m[id]
+		if la == nil {
+			la = &lockedAccess{locks: map[int]bool{}}
+			for l := range e.held {
+				la.locks[l] = true
+			}
+			m[id] = la
+		} else {
+			for l := range la.locks {
+				if e.held[l] == 0 {
+					delete(la.locks, l)
+				}
+			}
+		}
+		la.write = la.write || write
 		return
 	}
 	m := e.foot[e.actor]
@@ -409,6 +444,8 @@ func (e *Engine) resetPath() {
 	e.pathAsserted = false
 	e.actor = 0
 	e.foot = map[int]map[int]uint8{}
+	e.lockFoot = map[int]map[int]*lockedAccess{}
+	e.held = map[int]int{}
 	e.stdout, e.stderr = nil, nil
 	e.bufs = map[*Cell]Value{}
 	e.pools = map[*Cell][]Value{}
@@ -544,6 +581,11 @@ func (e *Engine) Explore(fn *ssa.Function, args []Value) *Result {
 		}
 		if e.pathDecided > 0 && e.pathAsserted {
 			res.Nontrivial++
+		}
+		if debugPaths {
+			if m, ok := e.fullModel(); ok {
+				fmt.Fprintf(os.Stderr, "PATH %d end=%s %s model=%v obs=%v\n", res.Paths, end.kind, end.msg, m, e.evalObs(m))
+			}
 		}
 		switch end.kind {
 		case "ok", "violation":
